@@ -34,7 +34,13 @@ type DecodeResult struct {
 
 // NewCol builds a collecting process (never started) for in-process decoding.
 func NewCol(proto string, mode collector.DecodingMode, clk collector.VerifClock, ttl uint32) *Col {
-	in := collector.CollectorInput{Address: "127.0.0.1:0", Protocol: proto, MaxBufferSize: 65535, TemplateTTL: ttl, DecodingMode: mode}
+	return NewColEnc(proto, mode, clk, ttl, false)
+}
+
+// NewColEnc is NewCol with the IsEncrypted flag of the configuration set as given (no socket is
+// opened, so no certificate is needed).
+func NewColEnc(proto string, mode collector.DecodingMode, clk collector.VerifClock, ttl uint32, encrypted bool) *Col {
+	in := collector.CollectorInput{Address: "127.0.0.1:0", Protocol: proto, MaxBufferSize: 65535, TemplateTTL: ttl, DecodingMode: mode, IsEncrypted: encrypted}
 	var cp *collector.CollectingProcess
 	var err error
 	if clk != nil {
